@@ -383,5 +383,5 @@ func c13r5(c *RC) {
 		}
 		return false
 	}, ErrFlowOpts{SentinelOK: []string{"sliceio.EOF"}}, nil)
-	c.Floor("cache file error sites", n, 8)
+	c.Floor("cache file error sites", n, 5)
 }
